@@ -70,9 +70,16 @@ def main():
         try:
             gen_status = translate.regenerate()
         except translate.Unsupported as u:
-            problems.append({"kind": "translator", "what": "source outside the translated subset: %s" % u})
+            # the address-object translator serves C11-C13 only; a table generator that fails breaks its own Tab*.v
+            if getattr(mod, "USES_TRANSLATOR", False) or "generate() failed" in str(u) or "generated file name" in str(u):
+                problems.append({"kind": "translator", "what": "source outside the translated subset: %s" % u})
+            else:
+                info["translator_note"] = "address-object translator (not used by this property): %s" % u
         except Exception as e:
-            problems.append({"kind": "translator", "what": "translator failed: %s: %s" % (type(e).__name__, e)})
+            if getattr(mod, "USES_TRANSLATOR", False):
+                problems.append({"kind": "translator", "what": "translator failed: %s: %s" % (type(e).__name__, e)})
+            else:
+                info["translator_note"] = "address-object translator (not used by this property) failed: %s: %s" % (type(e).__name__, e)
         info["translator"] = gen_status
 
         # ---- 2. models (no proofs inside): needed by the correspondence
